@@ -39,6 +39,7 @@ import (
 	mrand "math/rand"
 	"os"
 	"sort"
+	"time"
 )
 
 func main() {
@@ -51,6 +52,7 @@ func main() {
 	big := flag.Int("big", 3000, "leaves of the ground-truth histories")
 	probe := flag.Bool("probe", true, "probe the CheckTree non-termination for sizes > 2^62 (last)")
 	relrounds := flag.Int("release", 6, "random rounds of the release-order scenario (after its 8 fixed cases)")
+	stressms := flag.Int("stressms", 1200, "duration of each configuration of the concurrent sign-subtree stress, ms (0 = off)")
 	noadd := flag.Bool("noadd", false, "skip the add-checkpoint pair/special-case scenarios")
 	nosub := flag.Bool("nosub", false, "skip the sign-subtree scenarios")
 	flag.Parse()
@@ -83,6 +85,9 @@ func main() {
 	}
 	for k := 0; k < *sessions; k++ {
 		g.session(k, *ops)
+	}
+	if !*nosub && *stressms > 0 {
+		g.subStress(time.Duration(*stressms)*time.Millisecond, 4, 4)
 	}
 	if !*nosub {
 		g.subTransplant()
